@@ -39,6 +39,15 @@ Section C10.
     intros elem prop val Hv Hs. rewrite (decl_allowed_spec M U R I p). unfold decodable. rewrite Hs.
     destruct val; [congruence | reflexivity].
   Qed.
+  (* nor one whose value ends in an unterminated escape or an escaped semicolon (fix F18): rebuilt into "prop: value; ..."
+     its backslash would swallow the separator and the declaration that follows *)
+  Theorem C10_unterminated_dropped : forall elem prop val, unterminated val = true ->
+    decl_allowed I p (element_styles I p elem) prop val = false.
+  Proof.
+    intros elem prop val Hu. rewrite (decl_allowed_spec M U R I p). unfold decodable. rewrite Hu. cbn [negb]. rewrite andb_false_r. reflexivity.
+  Qed.
+  Example C10_unterminated_example : unterminated (B"red\") = true /\ unterminated (B"red\;") = true /\ unterminated (B"red\\") = false.
+  Proof. vm_compute. repeat split. Qed.
   Example C10_undecodable_example : seen_value (B"\110000 expression(alert(1))") = [].
   Proof. vm_compute. reflexivity. Qed.
 
@@ -54,4 +63,5 @@ End C10.
 Print Assumptions C10_filter.
 Print Assumptions C10_no_rule_no_keep.
 Print Assumptions C10_undecodable_dropped.
+Print Assumptions C10_unterminated_dropped.
 Print Assumptions C10_empty_dropped.
